@@ -96,8 +96,24 @@ CONT_RULE = ("enumerated small inputs (all digraphs on <=3/4 nodes for scc; all 
              "mutations of seed documents; all container histories over a small alphabet) plus seeded random ones; every order-dependent call is "
              "annotated with the hash map's iteration order observed in the implementation and the model is evaluated under that order. One case = "
              "one graph/document/history; distinct_nontrivial = number of cases.")
-for _p, _o in [("C11", ["c11"]), ("C12", ["c12"]), ("C13", ["c13"]), ("C18", ["c18"])]:
-    PROPS[_p] = {"theorems": [], "oracles": _o, "rule": CONT_RULE, "exhaustive": True, "level_text": "", "level_note": CORR_NOTE, "technique": "", "design_ref": "DESIGN.md section 7, " + _p}
+_CONT = {
+ "C11": ([("GdslModel.Props.C11", "G.Scc." + t) for t in ["partition", "sound", "complete", "order_independent", "fuel_enough"]],
+         "Machine-checked proof (Lean 4) of Kosaraju's algorithm as implemented (first pass: postorder forest threaded through the visited filter in hash-map order; second pass: transposed preorder among unassigned nodes in decreasing finishing position): for every iteration order of a closed container the result is a partition of the members, two nodes share a component exactly when each reaches the other, and as a set of sets it does not depend on the order - via the component-root lemma on the non-deterministic DFS relation. Tied to digraph/sync_digraph by exact correspondence under the annotated hash order (all digraphs on <=3 (quick) / <=4 (thorough) nodes x 4 container instances and insertion orders, random to 30 nodes) and a mutual-reachability partition oracle on the real output.",
+         "Lean 4 proof of Kosaraju (component-root lemma, two-pass invariants, every iteration order) + model/implementation correspondence under observed hash order + partition oracle"),
+ "C12": ([("GdslModel.Props.C12", "G.Serde." + t) for t in ["roundtrip", "roundtrip_inn", "nonmember_error"]],
+         "Machine-checked proof (Lean 4) that, for every iteration order of the hash map, rebuilding the decomposition of a closed container yields the same keys and node values, every member's outgoing (directed) / outbound half-edge (undirected) list exactly and in order, a mirrored store, and per source the same incoming values (hence the same multiset of incident edges); a non-member neighbour makes the document undeserialisable. JSON/CBOR byte formats are trusted to be the identity on the pair of lists; the real serde_json/serde_cbor round trips of all four containers are compared with the model (all connect sequences on <=3 nodes, random to 40 nodes) and checked by a structural-equality oracle.",
+         "Lean 4 proof (decompose/rebuild round trip for every iteration order) + model/implementation correspondence through real serde_json and serde_cbor + structural oracle"),
+ "C13": ([("GdslModel.Props.C13", "G.Serde." + t) for t in ["undeclared_is_error", "first_key_wins", "ok_is_wellformed"]],
+         "Machine-checked proof (Lean 4) about the structural layer of deserialisation (the visitor over the two lists): an error exactly when an edge names an undeclared key; repeated keys keep the first declaration; an Ok graph is mirrored, its nodes come from the document and every node's lists are exactly the listed edges in document order; the function has no panic outcome. Byte-level parsing (serde_json/serde_cbor recursion limits, error paths) is outside the model: for documents the harness cannot type, the check is validation only (no panic, Err or an Ok graph satisfying the invariants), stated in the evidence.",
+         "Lean 4 proof of the structural layer + correspondence on all single structural mutations of seed documents (JSON and CBOR) + robustness validation on random byte mutations"),
+ "C18": ([("GdslModel.Props.C18", "G.Cont." + t) for t in ["insert_spec", "remove_spec", "nodup_insert", "nodup_remove", "len_insert", "len_remove", "order_spec", "views", "root_iff_no_member_edge", "dot_lines"]],
+         "Machine-checked proof (Lean 4) that the container model refines a key set (insert adds iff absent and otherwise changes nothing, remove/contains/len are the map's, an accepted iteration order lists each member once), that roots/leaves/orphans are exactly the members without incoming/outgoing/any edge (and, with the mirror invariant, describe the edge set from both ends), and that the DOT exports have one node statement per member and one edge statement per iterated edge. Nodes are keys in the model, so 'hands out the inserted nodes themselves' is validated, not proved: container histories interleaved with edge operations through container handles are compared call by call with the model and with an independent reference map; DOT text is compared exactly under the annotated hash order and as a multiset of lines.",
+         "Lean 4 refinement proof (container = key set; views; DOT line structure) + model/implementation correspondence of container histories + reference-map and DOT oracles"),
+}
+for _p, (_t, _txt, _tech) in _CONT.items():
+    PROPS[_p] = {"theorems": _t, "oracles": [_p.lower()], "rule": CONT_RULE, "exhaustive": True, "level_text": _txt, "level_note": CORR_NOTE, "technique": _tech, "design_ref": "DESIGN.md section 7, " + _p}
 
 import c14 as _c14
-PROPS["C14"] = {"theorems": [], "oracles": [], "rule": "", "custom": _c14.custom, "level_text": "", "level_note": CORR_NOTE, "technique": "", "design_ref": "DESIGN.md section 7, C14"}
+PROPS["C14"] = {"theorems": [("GdslModel.Props.C14", "G.Macro." + t) for t in ["build_spec", "panic_first_missing"]], "oracles": [], "rule": "", "custom": _c14.custom,
+    "technique": "Lean 4 proof of the arm body's denotation + generated macro programs compiled against the tree (correspondence) + independent denotation oracle",
+    "level_text": "Machine-checked proof (Lean 4) that the body of a *graph! arm (collect edge tuples, insert nodes, check source then target, connect), as a function of the listed nodes and edges, builds exactly the listed nodes (first listing of a key wins) and per node exactly its listed edges in listed order, mirrored, and otherwise panics naming the first unlisted key in (edge order, source before target). The macro_rules! expansion itself is exercised, not modelled: a seeded generator writes invocations of all 4 macros x 4 forms (plus the empty form and the _node!/_connect! helpers) into a crate compiled against the working tree, each result bound to the flavour's own Graph type, and their output is compared with the model and with an independent denotation.", "level_note": CORR_NOTE, "technique": "", "design_ref": "DESIGN.md section 7, C14"}
